@@ -175,22 +175,36 @@ impl<R> Archive<R> {
         let archive_chunks = dictionary
             .chunk_descriptors
             .into_iter()
-            .map(|dict| ChunkDescriptor {
-                checksum: dict.checksum.into(),
-                archive_size: dict.archive_size as usize,
-                archive_offset: chunk_data_offset + dict.archive_offset,
-                source_size: dict.source_size,
+            .map(|dict| {
+                // Both the first and the last byte of a chunk must be addressable.
+                let archive_offset = chunk_data_offset
+                    .checked_add(dict.archive_offset)
+                    .filter(|offset| offset.checked_add(u64::from(dict.archive_size)).is_some())
+                    .ok_or_else(|| ArchiveError::invalid_archive("invalid chunk offset"))?;
+                Ok(ChunkDescriptor {
+                    checksum: dict.checksum.into(),
+                    archive_size: dict.archive_size as usize,
+                    archive_offset,
+                    source_size: dict.source_size,
+                })
             })
-            .collect();
+            .collect::<Result<Vec<ChunkDescriptor>, ArchiveError<R::Error>>>()?;
         let chunker_params = dictionary
             .chunker_params
             .ok_or_else(|| ArchiveError::invalid_archive("invalid chunker parameters"))?;
         let chunk_hash_length = chunker_params.chunk_hash_length as usize;
-        let source_order: Vec<usize> = dictionary
+        let source_order = dictionary
             .rebuild_order
             .into_iter()
-            .map(|v| v as usize)
-            .collect();
+            .map(|v| {
+                let index = v as usize;
+                if index < archive_chunks.len() {
+                    Ok(index)
+                } else {
+                    Err(ArchiveError::invalid_archive("invalid rebuild order"))
+                }
+            })
+            .collect::<Result<Vec<usize>, ArchiveError<R::Error>>>()?;
         Ok(Self {
             reader,
             archive_chunks,
